@@ -314,7 +314,47 @@ let run_line line =
      | "map_reset_charge" -> ignore (exec (OMapResetCharge (nctx ()))); auto_line ()
      | _ -> pf "= unknown-op\n")
 
+(* ---- oracle mode: the extracted specification predicates of spec/SpecTx.v evaluated on the IMPLEMENTATION's trace ----
+   mdriver --oracle <implementation output>: configuration lines are replayed to know each interface's attributes;
+   every transmitted frame must satisfy wf_tx, every Hello must decode (hello_fields, decode_attrs) to attrs_of. *)
+let rec nat_of_int i = if i <= 0 then O else S (nat_of_int (i - 1))
+let starts s p = String.length s >= String.length p && String.sub s 0 (String.length p) = p
+let oracle_mode file =
+  let ic = open_in file in
+  let scn = ref "?" and opidx = ref (-1) in
+  (try
+     while true do
+       let line = input_line ic in
+       if starts line "## " then begin scn := String.sub line 3 (String.length line - 3); reset_state (); opidx := -1 end
+       else if starts line "# " then begin
+         incr opidx;
+         let l = String.sub line 2 (String.length line - 2) in
+         if starts l "cfg " then (try do_cfg (List.tl (split_ws l)) with _ -> ()); Buffer.clear out
+       end
+       else if starts line "> send " then begin
+         match split_ws line with
+         | _ :: _ :: cx :: rest ->
+           let hex = List.nth rest (List.length rest - 1) in
+           if hex <> "x" then begin
+             let ctx = n_of_int (int_of_string cx) in
+             let c = cfg_of !sys ctx in
+             let fr = bytes_of_hex hex in
+             let mtu = int_of_n (mtu_or_default c) in
+             if not (wf_tx (mac_bytes (own c)) (nat_of_int mtu) fr) then
+               Printf.printf "%s\t%d\ttransmitted frame rejected by the specification validator wf_tx (spec/SpecTx.v): %s\n" !scn !opidx (String.sub hex 0 (min 80 (String.length hex)));
+             if List.length fr >= 18 && int_of_n (List.nth fr 17) = 1 then
+               (match hello_fields fr with
+                | Some hf -> if decode_attrs hf.hf_props <> attrs_of c !sys.y_g then
+                    Printf.printf "%s\t%d\tHello does not decode (decode_attrs) to the attributes the platform supplied (attrs_of)\n" !scn !opidx
+                | None -> Printf.printf "%s\t%d\tHello does not parse (hello_fields)\n" !scn !opidx)
+           end
+         | _ -> ()
+       end
+     done
+   with End_of_file -> ())
+
 let () =
+  if Array.length Sys.argv >= 3 && Sys.argv.(1) = "--oracle" then begin oracle_mode Sys.argv.(2); exit 0 end;
   let ic = open_in Sys.argv.(1) in
   let in_scn = ref false and dead = ref false in
   (try
